@@ -200,6 +200,11 @@ func (g *Gen) discharge(o *Obl, timeoutS int, tmpdir string, confirm bool) {
 	want := "unsat"
 	if o.Cover {
 		want = "sat"
+		if timeoutS > 15 {
+			// a model of a path condition is found quickly or, with quantified assumptions, not at all; the
+			// fallback below (quantifier-free part) takes over after this time
+			timeoutS = 15
+		}
 	} else {
 		script += g.modelQuery(script)
 	}
